@@ -52,7 +52,8 @@ TRUSTED = [
     "hash as a parameter and the check compares equality patterns of keys",
 ]
 ASSUMPTIONS = [
-    "rows are identified by an opaque id; bit-identity of all other bytes is checked by the oracle on the real arrays (4 dtypes)",
+    "rows are identified by an opaque id; bit-identity of all other bytes is checked by the oracle on the real arrays (4 dtypes; the quick tier uses "
+    "the endtime and the dt*length encodings only, to keep numba compilation short)",
     "target_size_mb / chunk_target_size_mb / chunk_source_size_mb are mapped monotonically to a row count",
     "per-chunk processing is modelled for plugins that compute chunk by chunk without state (LoopPlugin / OverlapWindowPlugin are "
     "refused by strax itself); the harness target plugin is a row filter",
@@ -778,9 +779,12 @@ def gen_layout(rng, style=None, n_rows=None):
     return [[a, b, [list(r) for r in rs]] for a, b, rs in parts], style
 
 
+_ENCS = {"use": ENCS}     # quick tier: two of the four dtypes (every dtype costs one numba compilation of strax's kernels per run)
+
+
 def base(rng, op, **kw):
     layout, style = gen_layout(rng, kw.pop("style", None), kw.pop("n_rows", None))
-    case = dict(op=op, enc=rng.choice(ENCS), layout=layout, style=style, src_comp=rng.choice(COMPRESSORS), src_target=rng.randint(1, 6))
+    case = dict(op=op, enc=rng.choice(_ENCS["use"]), layout=layout, style=style, src_comp=rng.choice(COMPRESSORS), src_target=rng.randint(1, 6))
     case.update(kw)
     return case
 
@@ -800,6 +804,7 @@ def run(ctx):
     rng = ctx.rng
     dist = Counter()
     timing = []
+    _ENCS["use"] = ENCS if ctx.thorough else ["end", "len"]
 
     def nontriv(c, o):
         return len(c.get("layout", [0, 0])) >= 2 and sum(len(x[2]) for x in c.get("layout", [])) >= 2
